@@ -24,6 +24,7 @@ func Duplicate[T any](input <-chan T, count int) []<-chan T {
 		result[i] = outputs[i]
 	}
 
+	VerifStage("Dup", count, []any{input}, []any{outputs})
 	go func() {
 		for _, output := range outputs {
 			defer close(output)
